@@ -247,16 +247,44 @@ def shapes(ctx):
 
         def comps(e):
             out = set()
-            for n in ast.walk(cfl.expand(e, st_)):
-                if isinstance(n, ast.Subscript) and isinstance(n.value, ast.Name) and n.value.id in cd.params and \
-                        isinstance(n.slice, ast.Constant):
-                    out.add((n.value.id, n.slice.value))
+            for alt in cfl.alternatives(e, st_):           # every reaching definition of branch-merged locals
+                for n in ast.walk(alt):
+                    if isinstance(n, ast.Subscript) and isinstance(n.value, ast.Name) and n.value.id in cd.params and \
+                            isinstance(n.slice, ast.Constant):
+                        out.add((n.value.id, n.slice.value))
             return out
         cx_, cy_ = comps(s_.value.elts[0]), comps(s_.value.elts[1])
         ok_xy = cx_ == {(p_, 0) for p_ in cd.params} and {(p_, 1) for p_ in cd.params} <= cy_
     ctx.ob("C07.shape-formula", cd.short(), "returns-x-y", ok_xy,
            "calculate_distance returns (x, y)" if ok_xy else
            "calculate_distance does not return (distance along latitude, distance along longitude) of its two coordinates", cd.loc)
+    # the longitude difference must be taken the short way round: near the +-180 degree meridian `lon2 - lon1` is off by 360
+    import math as _math
+
+    def _is(e, *vals):
+        v = P.try_fold(cd.module, e)
+        return isinstance(v, (int, float)) and any(abs(v - x) < 1e-9 for x in vals)
+    FULL, HALF = (2 * _math.pi, 360.0), (_math.pi, 180.0)
+    mod_wrap = any(isinstance(n, ast.BinOp) and isinstance(n.op, ast.Mod) and _is(n.right, *FULL) for n in ast.walk(cd.node))
+    plus = minus = False
+    for n in ast.walk(cd.node):
+        if isinstance(n, (ast.If, ast.While)) and isinstance(n.test, ast.Compare) and len(n.test.ops) == 1:
+            sides = [n.test.left, n.test.comparators[0]]
+            against_half = any(_is(x, *HALF) or (isinstance(x, ast.UnaryOp) and isinstance(x.op, ast.USub) and _is(x.operand, *HALF)) for x in sides)
+            if not against_half:
+                continue
+            for b in n.body:
+                if isinstance(b, ast.AugAssign) and _is(b.value, *FULL):
+                    plus = plus or isinstance(b.op, ast.Add)
+                    minus = minus or isinstance(b.op, ast.Sub)
+                if isinstance(b, ast.Assign) and isinstance(b.value, ast.BinOp) and _is(b.value.right, *FULL):
+                    plus = plus or isinstance(b.value.op, ast.Add)
+                    minus = minus or isinstance(b.value.op, ast.Sub)
+    wrap_ok = mod_wrap or (plus and minus)
+    ctx.ob("C07.shape-formula", cd.short(), "longitude-wrap", wrap_ok,
+           "the longitude difference is reduced to the short way round (+-180 degrees)" if wrap_ok else
+           "the longitude difference `lon2 - lon1` is used as it is: for an area next to the +-180 degree meridian a station a few metres "
+           "across the meridian is computed ~40 000 km away and never gets the packet", cd.loc)
     # area size
     az = P.func(f"{ROUTER}._compute_area_size_m2")
     afl = ctx.flows.get(az)
